@@ -183,6 +183,17 @@ theorem fork_agree (c1 c2 : Cl) (T l1 l2 : List Ev) (nx1 nx2 : Nat)
   C01Chain.fork_agree c1 c2 T l1 l2 nx1 nx2 h1 h2 hp hmp hl1 hl2 hne
 
 open MdkVerif.Fork MdkVerif.Chain MdkVerif.Props.C01Fork in
+/-- two clients offered the same SET of siblings (not necessarily all) agree -/
+theorem fork_agree_sameset (c1 c2 : Cl) (T l1 l2 : List Ev) (nx1 nx2 : Nat)
+    (h1 : AtFork c1 T) (h2 : AtFork c2 T) (hp : SameParent c1.g c2.g) (hmp : c1.maxPast = c2.maxPast)
+    (hl1 : ∀ e ∈ l1, e ∈ T) (hl2 : ∀ e ∈ l2, e ∈ T) (hset : ∀ e, e ∈ l1 ↔ e ∈ l2) (hne : l1 ≠ []) :
+    ∃ w, IsMin w l1 ∧
+      (run nx1 c1 l1).g.path = c1.g.path ++ [w.cipher] ∧
+      (run nx1 c1 l1).g.path = (run nx2 c2 l2).g.path ∧
+      wc (run nx1 c1 l1).g [] = wc (run nx2 c2 l2).g [] :=
+  C01Chain.fork_agree_sameset c1 c2 T l1 l2 nx1 nx2 h1 h2 hp hmp hl1 hl2 hset hne
+
+open MdkVerif.Fork MdkVerif.Chain MdkVerif.Props.C01Fork in
 /-- same epoch, same MLS state, same member set, same group data -/
 theorem fork_agree_data (c1 c2 : Cl) (T l1 l2 : List Ev) (nx1 nx2 : Nat)
     (h1 : AtFork c1 T) (h2 : AtFork c2 T) (hp : SameParent c1.g c2.g) (hmp : c1.maxPast = c2.maxPast)
